@@ -1,11 +1,11 @@
-\* repaired model, sequential, larger
+\* repaired model, sequential, larger: empty chain at start, two accounts, a failing write
 CONSTANTS NTx = 4 Kind <- KindS Sender <- SenderS Nonce <- NonceS NAccs = 2 Accs <- MCAccs StartEmpty = TRUE
   Max = 3 NPushers = 1 NConsumers = 0 Batch = 2
-  MaxPush = 5 MaxBlocks = 2 MaxFail = 1 MaxCrash = 1 MaxClose = 1 MaxPops = 3 MaxExecErr = 0
+  MaxPush = 5 MaxBlocks = 2 MaxFail = 1 MaxCrash = 1 MaxClose = 1 MaxPops = 2 MaxExecErr = 0 MaxFatal = 0
   DedupFix = TRUE OverflowFix = TRUE Mutant = "none"
 INIT Init
 NEXT Next
 VIEW view
-INVARIANTS TypeOK ExactlyOnceFIFO DbConsistent DbIsLog DurablePrefix DurableSubseq NothingDropped CloseFlushesAll SameOrder NoLostWakeup ExecBatchBound
+INVARIANTS TypeOK ExactlyOnceFIFO DbConsistent DbIsLog DurablePrefix NothingDropped CloseFlushesAll SameOrder NoLostWakeup ExecBatchBound
 PROPERTIES RejectHasNoEffect CapacityOnPush StrictCapacityOnPush ReloadIsTheLog
 CHECK_DEADLOCK FALSE
